@@ -1,7 +1,9 @@
 (* C18 - indented output puts each structural child on its own line at its depth.
    Statements only; the proofs are in Ws/PrettyFacts.v.  `pretty` (Ws/Pretty.v) is the model of
    PrettySerializer at width 0 that the check compares byte for byte with the implementation on every
-   run; `simple_pp` (Ws/SimplePP.v) is the straightforward recursive printer of the statement. *)
+   run; `simple_pp` (Ws/SimplePP.v) is the straightforward recursive printer of the statement.
+   The indentation ranges over `ws_indent` (space, tab, newline), a sub-domain of what the code accepts since 9955ff3
+   (XML white space: space, tab, carriage return, newline). *)
 From Coq Require Import List NArith Bool.
 From Delb.Base Require Import PyStr PyStrFacts.
 From Delb.Tree Require Import ATree.
